@@ -63,7 +63,7 @@ Proof. induction l as [|a l IH]; intros H; [reflexivity|]. cbn [map]. rewrite (H
 Theorem header_roundtrip mode headerstart path files : wf_header mode headerstart path files = true ->
   read_header mode (stored_header mode headerstart path files) = Some (path, files).
 Proof.
-  unfold wf_header. intros H. apply andb_prop in H. destruct H as [H Hhs]. apply andb_prop in H. destruct H as [H Hfs].
+  unfold wf_header. intros H. apply andb_prop in H. destruct H as [H _]. apply andb_prop in H. destruct H as [H Hhs]. apply andb_prop in H. destruct H as [H Hfs].
   apply andb_prop in H. destruct H as [Hm Hp].
   destruct (wf_name_parts _ Hp) as [P1 [P2 P3]].
   assert (F1: forallb (no_byte COMMA) files = true /\ forallb (no_byte LF) files = true /\ forall x, In x files -> strip_ws x = x).
